@@ -8,7 +8,7 @@ Alpha == {"a", "Z", "7", ".", "-", "+", "_", "#", ":", "*", "/", " ", "=", ","}
 Strs1 == Alpha
 Strs2 == {x \o y : x \in Alpha, y \in Alpha}
 Strs3 == {x \o y : x \in Strs2, y \in Alpha}
-ZVals(n) == {""} \cup Strs1 \cup (IF n >= 2 THEN Strs2 ELSE {}) \cup (IF n >= 3 THEN Strs3 ELSE {})
+ZVals(n) == {"", "{0} {} %s %d", "{\"k\":1}", "\\t\\n"} \cup Strs1 \cup (IF n >= 2 THEN Strs2 ELSE {}) \cup (IF n >= 3 THEN Strs3 ELSE {})
 IVals == {"0", "5", "-5", "+5", "007", "-0", "2147483647"}
 FVals == {"1.5", "-1.5", "+1.5", ".5", "1e-05", "1E+5", "-.5e3", "3"}
 AVals == {"P", "!", "~", "a", "7", ":"}
@@ -55,7 +55,7 @@ rvars == <<fields, cgpos>>
 TagName(k, t) == CASE k = 1 -> "x" \o (IF t = "Z" THEN "z" ELSE t) [] k = 2 -> "yy" [] OTHER -> "w3"
 RInit == fields = <<>> /\ cgpos = 0
 AddField(t, v, rep) == /\ Len(fields) < MaxFields
-                       /\ Len(fields) >= 1 => (SecondRich \/ v \in {"a:b", "-5", "1e-05", ":", "", "c,-1", "a", "5", "1.5", "P", "C", "00", "i,1,2"})
+                       /\ Len(fields) >= 1 => (SecondRich \/ v \in {"a:b", "-5", "1e-05", ":", "", "c,-1", "a", "5", "1.5", "P", "C", "00", "i,1,2", "{0} {} %s %d", "{\"k\":1}"})
                        /\ fields' = Append(fields, <<IF rep /\ fields # <<>> THEN fields[1][1] ELSE TagName(Len(fields) + 1, t), t, v>>)
                        /\ (rep => fields # <<>> /\ fields[1][2] = t)
                        /\ UNCHANGED cgpos
